@@ -35,7 +35,7 @@ if __name__ == "__main__":
                 continue
             if isinstance(res, str):
                 print(d, res); continue
-            own = os.path.basename(os.path.dirname(os.path.dirname(d))) if "/out/" in d + "/" else json.load(open(os.path.join(d, "meta.json")))["property"]
+            own = ("C" + os.path.basename(os.path.dirname(os.path.dirname(d)))[1:]) if "/out/" in d + "/" else json.load(open(os.path.join(d, "meta.json")))["property"]
             v = [p for p, x in res.items() if x[0] == 1]
             u = [p for p, x in res.items() if x[0] == 2]
             status = "CAUGHT-OWN" if own in v else ("caught-other" if v else ("UNDECIDED" if u else "MISSED"))
